@@ -51,6 +51,7 @@ Judge(r, k) ==
       [] r.e = "down"   -> IF ~enabled THEN "env_down_while_down" ELSE "ok"
       [] r.e = "reset"  -> IF enabled THEN "env_reset_while_up" ELSE "ok"
       [] r.e = "reset_up" -> "ok"
+      [] r.e = "dreset" -> "ok"
       [] r.e = "hdr"    -> IF HdrLegal(k, (HdrSeq(Hdrs[r.h]) + 8 - expSeq) % 8) THEN "ok"
                            ELSE "env_hdr_illegal"
       [] r.e = "lc_rx"  -> IF LcValid(r) /\ LcCmd(r) = LRTY /\ (~enabled \/ lbadOwed)
@@ -74,6 +75,7 @@ Apply(r, k) ==
       [] r.e = "down"   -> LinkDown(r.reset)
       [] r.e = "reset"  -> UsbReset
       [] r.e = "reset_up" -> IF enabled THEN ResetUp ELSE UsbReset      \* (enable fell in the meantime)
+      [] r.e = "dreset" -> DomainReset
       [] r.e = "hdr"    -> HdrArrive(k, (HdrSeq(Hdrs[r.h]) + 8 - expSeq) % 8, HdrContent(Hdrs[r.h]))
       [] r.e = "lc_rx"  -> IF LcValid(r) /\ LcCmd(r) = LRTY THEN PartnerLrty ELSE UNCHANGED vars
       [] r.e = "consume" -> Consume
